@@ -109,3 +109,60 @@ def find_elem(v, idx):
         if r and r[1] == idx:
             hits.append(r[0])
     return hits
+
+
+def elem_refs(fx, fn, v, depth=0):
+    """element accesses found in the tree of v: [(D_node_peeled, idx)] with idx an int or ('last', c) for D[len(D) - c];
+    follows one level into crate-local helpers that take the array as an argument."""
+    out = []
+    for x in walk(v):
+        if x.kind == "call" and x.d["term"].get("name") in ("index", "get", "get_unchecked") and len(x.kids) == 2:
+            D = peel(x.kids[0])
+            i = const_value(x.kids[1])
+            if isinstance(i, int):
+                out.append((D, i))
+                continue
+            ix = peel(x.kids[1])
+            if ix.kind == "field":
+                ix = peel(ix.kids[0])  # (AddWithOverflow / SubWithOverflow result).0
+            if ix.kind == "binop" and ix.d["op"] in ("Sub", "SubWithOverflow", "SubUnchecked") and len(ix.kids) == 2:
+                l, r = peel(ix.kids[0]), const_value(ix.kids[1])
+                if isinstance(r, int) and l.kind == "call" and l.d["term"].get("name") == "len" and peel(l.kids[0]) is D:
+                    out.append((D, ("last", r)))
+        elif x.kind == "index" and x.d.get("e", {}).get("k") == "index" and len(x.kids) == 2:
+            D = peel(x.kids[0])
+            i = const_value(x.kids[1])
+            if isinstance(i, int):
+                out.append((D, i))
+            else:
+                ix = peel(x.kids[1])
+                if ix.kind == "field":
+                    ix = peel(ix.kids[0])
+                if ix.kind == "binop" and ix.d["op"] in ("Sub", "SubWithOverflow", "SubUnchecked") and len(ix.kids) == 2:
+                    l, r = peel(ix.kids[0]), const_value(ix.kids[1])
+                    is_len = (l.kind == "call" and l.d["term"].get("name") == "len" and peel(l.kids[0]) is D) or (l.kind == "unop" and l.d["op"] == "PtrMetadata" and peel(l.kids[0]) is D)
+                    if isinstance(r, int) and is_len:
+                        out.append((D, ("last", r)))
+        elif x.kind == "index" and x.d.get("e", {}).get("k") == "cidx":
+            e = x.d["e"]
+            out.append((peel(x.kids[0]), ("last", e["offset"]) if e.get("from_end") else e["offset"]))
+        elif x.kind == "call" and x.d["term"].get("name") in ("last", "first") and len(x.kids) == 1:
+            out.append((peel(x.kids[0]), ("last", 1) if x.d["term"]["name"] == "last" else 0))
+        elif x.kind == "call" and x.d["term"].get("resolved_local") and x.d["term"].get("resolved") in fx.fns and depth < 2 and x.fn is fn:
+            callee = fx.fns[x.d["term"]["resolved"]]
+            if callee.kind == "closure" or callee is fn:
+                continue
+            inner = elem_refs(fx, callee, vals(callee).return_value(), depth + 1)
+            for (Dp, idx) in inner:
+                if Dp.kind == "param" and Dp.fn is callee and Dp.d["idx"] - 1 < len(x.kids):
+                    out.append((peel(x.kids[Dp.d["idx"] - 1]), idx))
+    return out
+
+
+def resolve_idx(idx, lenset):
+    """concrete index set for idx under the length set (ints only; None if unbounded)"""
+    if isinstance(idx, int):
+        return {idx}
+    if lenset is None or any(n >= 6 for n in lenset):
+        return None
+    return {n - idx[1] for n in lenset}
